@@ -37,7 +37,7 @@ LEVEL = "exploration"
 HASH_SEEDS = [0, 1, 2, 3, 12345]
 
 K_PTR = "KF-C17-ptr-terminal-swallows-neighbours"
-K_ARGLESS = "KF-C17-argless-call-is-identifier"
+K_ARGLESS = "KF-argless-call-dropped"  # recorded by C15; its parse half is what C17 sees
 K_PAIR = "KF-C17-explicit-pair-at-statement-start-is-label"
 K_KWID = "KF-C17-keyword-read-as-identifier"
 K_KWSPLIT = "KF-C17-keyword-prefix-splits-identifier"
@@ -878,35 +878,54 @@ def child_main():
     else:
         p = fresh_parser()
         out["fwd"] = [_digest_with(p, t) for t in texts]
-        if job["mode"] == "fwd+bwd":
-            out["bwd"] = [_digest_with(p, t) for t in reversed(texts)][::-1]
+        if job.get("bwd"):  # the same parser object again, in reverse order
+            out["bwd"] = [_digest_with(p, t) for t in reversed(job["bwd"])][::-1]
     json.dump(out, sys.stdout)
     return 0
 
 
 def run_children(jobs, nproc):
-    """jobs: [(key, hashseed, mode, texts)] -> {key: result dict}; at most nproc interpreter processes at a time"""
+    """jobs: [(key, hashseed, mode, texts, bwd_texts)] -> {key: result dict}; at most nproc interpreter processes at a time.
+    Each child is `python -m vf.props.c17 --child` with PYTHONHASHSEED set, the cwd and PYTHONPATH of this run."""
+    import tempfile
+    import time
+
     pending = list(jobs)
     running = []
     results = {}
     env0 = dict(os.environ)
     while pending or running:
         while pending and len(running) < nproc:
-            key, hs, mode, texts = pending.pop(0)
+            key, hs, mode, texts, bwd = pending.pop(0)
             env = dict(env0)
             env["PYTHONHASHSEED"] = str(hs)
-            p = subprocess.Popen([sys.executable, "-m", "vf.props.c17", "--child"], stdin=subprocess.PIPE, stdout=subprocess.PIPE, stderr=subprocess.PIPE, env=env, cwd=os.getcwd())
-            p.stdin.write(json.dumps({"mode": mode, "texts": texts}).encode())
-            p.stdin.close()
-            running.append((key, p))
-        # wait for the first to finish (stdout is small; read it whole)
-        key, p = running.pop(0)
-        outb = p.stdout.read()
-        errb = p.stderr.read()
-        rc = p.wait()
-        if rc != 0 or not outb:
-            raise core.HarnessError("determinism child %r failed (rc=%s): %s" % (key, rc, errb.decode(errors="replace")[-1500:]))
-        results[key] = json.loads(outb.decode())
+            fin = tempfile.TemporaryFile()
+            fin.write(json.dumps({"mode": mode, "texts": texts, "bwd": bwd}).encode())
+            fin.seek(0)
+            fout = tempfile.TemporaryFile()
+            ferr = tempfile.TemporaryFile()
+            p = subprocess.Popen([sys.executable, "-m", "vf.props.c17", "--child"], stdin=fin, stdout=fout, stderr=ferr, env=env, cwd=os.getcwd())
+            running.append((key, p, fin, fout, ferr))
+        still = []
+        for key, p, fin, fout, ferr in running:
+            rc = p.poll()
+            if rc is None:
+                still.append((key, p, fin, fout, ferr))
+                continue
+            fout.seek(0)
+            outb = fout.read()
+            ferr.seek(0)
+            errb = ferr.read()
+            for f in (fin, fout, ferr):
+                f.close()
+            if rc != 0 or not outb:
+                for _, q, _, _, _ in still:
+                    q.kill()
+                raise core.HarnessError("determinism child %r failed (rc=%s): %s" % (key, rc, errb.decode(errors="replace")[-1500:]))
+            results[key] = json.loads(outb.decode())
+        if len(still) == len(running):
+            time.sleep(0.05)
+        running = still
     return results
 
 
@@ -953,24 +972,20 @@ def determinism(ctx, gen_texts, corpus_texts, cached_digest):
     # its list backwards (the whole corpus is parsed forwards only - its slice also backwards)
     slice_set = set(corpus_slice(corpus_texts))
     both = sorted(gen_texts)
-    bwd_texts = (both[::3] if quick else both) + [t for t in corpus_texts if t in slice_set]
-    bset = set(bwd_texts)
-    fwd_only = [t for t in all_texts if t not in bset]
+    bset = set((both[::3] if quick else both) + [t for t in corpus_texts if t in slice_set])
     for hs in HASH_SEEDS:
-        for i, sh in enumerate(shards(bwd_texts, nsh, ctx.seed)):
-            jobs.append((("seed", hs, i), hs, "fwd+bwd" if hs == 0 else "fwd", sh))
-        for i, sh in enumerate(shards(fwd_only, nsh, ctx.seed)):
-            jobs.append((("seed", hs, nsh + i), hs, "fwd", sh))
+        for i, sh in enumerate(shards(all_texts, nsh, ctx.seed)):
+            jobs.append((("seed", hs, i), hs, "one-parser", sh, [t for t in sh if t in bset] if hs == 0 else []))
     fresh_slice = sorted(all_texts)[:: (16 if quick else 6)]
     for i, sh in enumerate(shards(fresh_slice, nsh, ctx.seed)):
-        jobs.append((("fresh", 3, i), 3, "fresh", sh))
+        jobs.append((("fresh", 3, i), 3, "fresh", sh, []))
     # longest jobs first
-    jobs.sort(key=lambda j: -sum(30 + len(t) for t in j[3]) * (2 if j[2] == "fwd+bwd" else 1))
+    jobs.sort(key=lambda j: -(sum(30 + len(t) for t in j[3]) + sum(30 + len(t) for t in j[4])))
     ctx.log("determinism: %d child interpreters (%d texts x %d hash seeds, %d fresh-parser texts)" % (len(jobs), len(all_texts), len(HASH_SEEDS), len(fresh_slice)))
     res = run_children(jobs, core.NPROC)
     by_cfg = {}  # config name -> {text: digest}
     hashes = {}
-    for (key, hs, mode, texts) in jobs:
+    for (key, hs, mode, texts, bwd) in jobs:
         r = res[key]
         if r["hashseed_env"] != str(hs):
             raise core.HarnessError("child %r ran with PYTHONHASHSEED=%r" % (key, r["hashseed_env"]))
@@ -981,7 +996,7 @@ def determinism(ctx, gen_texts, corpus_texts, cached_digest):
             d[t] = g
         if "bwd" in r:
             d2 = by_cfg.setdefault("hashseed=%d/same-parser-backwards" % hs, {})
-            for t, g in zip(texts, r["bwd"]):
+            for t, g in zip(bwd, r["bwd"]):
                 d2[t] = g
     distinct_hash_values = len(set(h for s in hashes.values() for h in s))
     if distinct_hash_values < len(HASH_SEEDS):
@@ -1166,8 +1181,8 @@ def replay(ctx, path):
     case = json.load(open(path))
     text = case["text"]
     if case.get("kind") == "determinism":
-        jobs = [(("seed", hs, 0), hs, "fwd+bwd", [text, "{ r = a + b; }"]) for hs in HASH_SEEDS]
-        jobs.append((("fresh", 3, 0), 3, "fresh", [text]))
+        jobs = [(("seed", hs, 0), hs, "one-parser", [text, "{ r = a + b; }"], [text, "{ r = a + b; }"]) for hs in HASH_SEEDS]
+        jobs.append((("fresh", 3, 0), 3, "fresh", [text], []))
         res = run_children(jobs, core.NPROC)
         digs = {}
         for k, r in res.items():
